@@ -3,6 +3,8 @@
 //! (`pool_migration::orchard_ironwood::PoolMigrations`), and the migration-oracle reads used by the
 //! `reader-snapshot-migration` sub-check.
 
+pub mod real_proof;
+
 use std::num::NonZeroU32;
 use std::sync::atomic::{AtomicBool, Ordering};
 
